@@ -764,7 +764,7 @@ func resliceBases(v ssa.Value, self *ssa.Call, seen map[ssa.Value]bool, depth in
 	seen[v] = true
 	switch x := v.(type) {
 	case *ssa.Slice:
-		if x.High != nil {
+		if x.High != nil && x.Max == nil { // s[:k:k] caps the capacity: the next append allocates, nothing of s is overwritten
 			if _, isSl := x.X.Type().Underlying().(*types.Slice); isSl {
 				return []ssa.Value{x.X}
 			}
